@@ -1,7 +1,8 @@
 #!/usr/bin/env python3
-"""Apply each behaviour-preserving patch under /verif/seeded/benign/ to /repo, run EVERY claimed check on it (quick
-tier, in parallel, each with its own work directory), undo it.  A check must exit 0 on such a tree; exit 1 is a false
-alarm, exit 2 an undecided run.   usage: run_benign.py [name ...]    writes /verif/seeded/BENIGN_RESULTS.json"""
+"""Apply each behaviour-preserving patch under /verif/seeded/benign/ to a scratch copy of /repo's HEAD (never to /repo
+itself), run EVERY claimed check on it (quick tier, in parallel, each with its own work and evidence directory), remove
+the copy.  A check must exit 0 on such a tree; exit 1 is a false alarm, exit 2 an undecided run.
+usage: run_benign.py [name ...]    writes /verif/seeded/BENIGN_RESULTS.json"""
 import json, os, shutil, subprocess, sys
 from concurrent.futures import ThreadPoolExecutor
 ROOT = '/verif'
@@ -10,21 +11,23 @@ names = sys.argv[1:] or sorted(d for d in os.listdir(BD) if os.path.isdir(BD + '
 props = [c['property_id'] for c in json.load(open(ROOT + '/MANIFEST.json'))['checks']]
 RES = ROOT + '/seeded/BENIGN_RESULTS.json'
 res = json.load(open(RES)) if os.path.exists(RES) else {}
+SCR = '/var/tmp/vx-benign-%d' % os.getpid()
 
 def run(p):
-    w = '/var/tmp/vxwork-%s' % p
-    r = subprocess.run([ROOT + '/check', p], capture_output=True, text=True, cwd=ROOT, env=dict(os.environ, VX_WORK=w))
-    shutil.rmtree(w, ignore_errors=True)
-    lines = [l for l in r.stdout.split('\n') if l.startswith(('VIOLATION', 'UNDECIDED', 'KNOWN'))]
+    env = dict(os.environ, VX_REPO=SCR + '/repo', VX_WORK=SCR + '/work-' + p, VX_EVID=SCR + '/evid-' + p)
+    r = subprocess.run([ROOT + '/check', p], capture_output=True, text=True, cwd=ROOT, env=env)
+    lines = [l.replace(SCR, '<scratch>') for l in r.stdout.split('\n') if l.startswith(('VIOLATION', 'UNDECIDED', 'KNOWN'))]
     return p, dict(exit=r.returncode, lines=lines[:6])
 
 for n in names:
     d = os.path.join(BD, n)
-    assert subprocess.run(['git', '-C', '/repo', 'status', '--porcelain'], capture_output=True, text=True).stdout.strip() == '', '/repo not clean'
-    a = subprocess.run(['git', '-C', '/repo', 'apply', d + '/patch.diff'], capture_output=True, text=True)
-    if a.returncode != 0:
-        res[n] = dict(applied=False, err=a.stderr[-300:]); print(n, 'patch does not apply'); continue
+    shutil.rmtree(SCR, ignore_errors=True)
+    os.makedirs(SCR + '/repo')
     try:
+        subprocess.run('git -C /repo archive HEAD | tar -x -C %s/repo && git -C %s/repo init -q .' % (SCR, SCR), shell=True, check=True)
+        a = subprocess.run(['git', '-C', SCR + '/repo', 'apply', d + '/patch.diff'], capture_output=True, text=True)
+        if a.returncode != 0:
+            res[n] = dict(applied=False, err=a.stderr[-300:]); print(n, 'patch does not apply'); continue
         with ThreadPoolExecutor(6) as ex:
             out = dict(ex.map(run, props))
         bad = {p: v for p, v in out.items() if v['exit'] != 0}
@@ -32,5 +35,5 @@ for n in names:
                       undecided=sorted(p for p, v in bad.items() if v['exit'] == 2), detail=bad)
         print(n, 'quiet' if not bad else {p: (v['exit'], [l[:200] for l in v['lines'][:3]]) for p, v in bad.items()}, flush=True)
     finally:
-        subprocess.run(['git', '-C', '/repo', 'checkout', '--', '.'], check=True)
+        shutil.rmtree(SCR, ignore_errors=True)
         json.dump(res, open(RES, 'w'), indent=1, sort_keys=True)
